@@ -77,7 +77,16 @@ class C15(Prop):
                 lv = rng.choice(["0", "1", "-1", "1.5"])
             c = {"stream": "pairs", "f": f, "level": lv, "eta": str(eta), "y": [str(v) for v in ys], "z": [str(v) for v in zs]}
             r = rng.random()
-            if r < 0.12:
+            if r < 0.06:
+                # a threshold one ulp above / below an observation (decimal grids: 0.1 * 3 != 0.3): no tolerance in the indicators
+                import math
+
+                ysf = [rng.choice([0.3, 0.1, 1.0, 2.5, 1e6, 0.7]) for _ in range(n)]
+                zsf = [v * rng.choice([0.5, 1.0, 3.0]) for v in ysf]
+                y0 = rng.choice(ysf)
+                etaf = rng.choice([math.nextafter(y0, math.inf), math.nextafter(y0, -math.inf), y0 * (1 + 1e-13), y0])
+                c.update(y=[str(Fraction(v)) for v in ysf], z=[str(Fraction(v)) for v in zsf], eta=str(Fraction(etaf)))
+            elif r < 0.12:
                 # one scorer object moved along the thresholds: constructed with another eta, the attribute re-assigned
                 c["eta0"] = str(rng.choice(alpha))
             elif r < 0.27:
@@ -100,9 +109,11 @@ class C15(Prop):
             if len(set(y + [v for c in cols for v in c])) < 2:
                 continue
             vals = sorted(set(y + cols[0]))
+            etas = rng.randint(2, 7) if rng.random() < 0.4 else sorted(set(rng.sample(vals, min(len(vals), 3)) + [rng.randint(-8, 16) / 4]))
+            if isinstance(etas, list) and rng.random() < 0.4:
+                etas = etas[::-1] if rng.random() < 0.5 else rng.sample(etas, len(etas))  # descending / the user's own order
             yield {"stream": "murphy", "y": y, "cols": cols, "f": rng.choice(FUNCS), "level": rng.choice([0.5, 0.25, 0.75]),
-                   "w": None if rng.random() < 0.5 else [rng.choice([1.0, 2.0, 0.5]) for _ in range(n)],
-                   "etas": rng.randint(2, 7) if rng.random() < 0.4 else sorted(set(rng.sample(vals, min(len(vals), 3)) + [rng.randint(-8, 16) / 4]))}
+                   "w": None if rng.random() < 0.5 else [rng.choice([1.0, 2.0, 0.5]) for _ in range(n)], "etas": etas}
         for k in range(400 if tier == "quick" else 6000):
             n = rng.randint(1, 9)
             ys = [Fraction(rng.randint(-4, 4)) for _ in range(n)]
